@@ -314,6 +314,8 @@ type wire struct {
 	Target  string            `json:"target"`
 	Headers map[string]string `json:"headers"`
 	Body    string            `json:"body,omitempty"`
+	// Chunked: the body is sent with Transfer-Encoding: chunked (no Content-Length) - the same credentials, another framing
+	Chunked bool `json:"chunked_body,omitempty"`
 }
 
 func queryEscape(s string) string {
@@ -361,6 +363,11 @@ func (r lreq) wire(path string) wire {
 		w.Method = "POST"
 		w.Headers["Content-Type"] = "application/x-www-form-urlencoded"
 		w.Body = strings.Join(body, "&")
+		sum := 0
+		for i := 0; i < len(w.Body); i++ {
+			sum += int(w.Body[i])
+		}
+		w.Chunked = sum%2 == 1
 	}
 	return w
 }
